@@ -161,7 +161,7 @@ func genC04(t *rapid.T) C04Case {
 	c := C04Case{}
 	n := rapid.IntRange(2, 9).Draw(t, "nops")
 	for i := 0; i < n; i++ {
-		kinds := []string{"approve", "increase", "decrease", "revoke", "spend", "spend", "spend", "advance"}
+		kinds := []string{"approve", "increase", "decrease", "revoke", "spend", "spend", "spend", "advance", "new-validator"}
 		if i == 0 {
 			kinds = []string{"approve", "approve", "spend"}
 		}
@@ -170,9 +170,27 @@ func genC04(t *rapid.T) C04Case {
 		op.M = rapid.IntRange(0, 2).Draw(t, "m")
 		op.M2 = rapid.IntRange(0, 3).Draw(t, "m2") == 0
 		op.Amt = rapid.SampledFrom([]string{"0", "1", "1000", "399000", "400000", "400001", "800000", "max", "100000"}).Draw(t, "amt")
-		op.Val = rapid.IntRange(0, 1).Draw(t, "val")
+		op.Val = rapid.SampledFrom([]int{0, 0, 1, 1, 2}).Draw(t, "val") // 2 = the validator created during the history (if any)
 		op.Dt = rapid.SampledFrom([]int64{5, 86400, 364 * 86400, 366 * 86400}).Draw(t, "dt")
 		c.Ops = append(c.Ops, op)
+	}
+	if rapid.IntRange(0, 4).Draw(t, "late-validator-scenario") == 0 {
+		// a grant (unlimited, limited or the one from the prelude), then a new validator appears, then the grantee
+		// stakes the signer's coins with it / redelegates to it
+		g := rapid.IntRange(0, 2).Draw(t, "lv-g")
+		m := rapid.SampledFrom([]int{0, 0, 2}).Draw(t, "lv-m")
+		var sc []C04Op
+		if lim := rapid.SampledFrom([]string{"", "max", "max", "400000"}).Draw(t, "lv-limit"); lim != "" {
+			sc = append(sc, C04Op{K: "approve", G: g, M: m, Amt: lim})
+		}
+		sc = append(sc, C04Op{K: "new-validator"}, C04Op{K: "spend", G: g, M: m, Amt: "1000", Val: 2})
+		if rapid.Bool().Draw(t, "lv-again") {
+			sc = append(sc, C04Op{K: "spend", G: g, M: 0, Amt: "1", Val: 0})
+		}
+		c.Ops = append(sc, c.Ops...)
+		if len(c.Ops) > 10 {
+			c.Ops = c.Ops[:10]
+		}
 	}
 	if rapid.IntRange(0, 4).Draw(t, "expiry-scenario") == 0 {
 		// approve (unlimited or limited), use the grant, let time pass to just before / just after its expiry, use it again
@@ -198,6 +216,7 @@ type c04Grant struct {
 	Unlimited bool
 	Limit     *big.Int
 	Expiry    time.Time
+	Allow     map[string]bool // validators the grant names (all unjailed validators at approval time)
 }
 
 func runC04B(st *ev.Stats, c C04Case) string {
@@ -215,7 +234,12 @@ func runC04B(st *ev.Stats, c C04Case) string {
 			a, exp := app.AuthzKeeper.GetAuthorization(n.Ctx(), pxFrameAcc(g), pxSigner.Addr, c04Msgs[m])
 			if a != nil {
 				sa := a.(*stakingtypes.StakeAuthorization)
-				gr := &c04Grant{Expiry: chain.GenesisTime.AddDate(100, 0, 0)}
+				gr := &c04Grant{Expiry: chain.GenesisTime.AddDate(100, 0, 0), Allow: map[string]bool{}}
+				if al := sa.GetAllowList(); al != nil {
+					for _, v := range al.Address {
+						gr.Allow[v] = true
+					}
+				}
 				if exp != nil {
 					gr.Expiry = *exp
 				}
@@ -237,6 +261,7 @@ func runC04B(st *ev.Stats, c C04Case) string {
 		return res.Code, vmErr, res.Log
 	}
 	limitedSpend, crossedExpiry := false, false
+	newVal := "" // operator address of the validator created during the history
 	for i, op := range c.Ops {
 		now := n.Header.Time
 		methods := []int{op.M}
@@ -271,6 +296,19 @@ func runC04B(st *ev.Stats, c C04Case) string {
 				crossedExpiry = true
 			}
 			continue
+		case "new-validator":
+			// somebody creates a validator after the approvals were given: no existing grant names it
+			if newVal == "" {
+				num, sq := txb.AccInfo(n.Ctx(), app, pxOther.Addr)
+				m, err := stakingtypes.NewMsgCreateValidator(sdk.ValAddress(pxOther.Addr), pxNewValKey.PubKey(), islm(1000), stakingtypes.NewDescription("late", "", "", "", ""),
+					stakingtypes.NewCommissionRates(sdk.NewDecWithPrec(10, 2), sdk.NewDecWithPrec(20, 2), sdk.NewDecWithPrec(1, 2)), sdk.OneInt())
+				must(err)
+				if r := n.DeliverTx(txb.CosmosTx(pxOther, txb.Cosmos{Msgs: []sdk.Msg{m}, Gas: 900000, Fee: coinsOfGas(900000, gwei10), ChainID: chain.ChainID, AccNum: num, Seq: sq})); r.Code == 0 {
+					newVal = sdk.ValAddress(pxOther.Addr).String()
+					st.Class("validator-created-after-approvals")
+				}
+			}
+			continue
 		case "approve":
 			code, vmErr, log := ethCall(pabi.StakingAddr, pabi.Pack("staking", "approve", grantee, amt, urls))
 			ok := code == 0 && vmErr == ""
@@ -278,14 +316,20 @@ func runC04B(st *ev.Stats, c C04Case) string {
 				return fail("approve-rejected", fmt.Sprintf("op %d approve %s %v failed: %d %s %s", i, op.Amt, urls, code, vmErr, trunc(log)))
 			}
 			if ok {
+				allow := map[string]bool{}
+				for _, v := range app.StakingKeeper.GetAllValidators(n.Ctx()) {
+					if !v.IsJailed() {
+						allow[v.OperatorAddress] = true
+					}
+				}
 				for _, m := range methods {
 					switch {
 					case isMax:
-						ledger[key(op.G, m)] = &c04Grant{Unlimited: true, Expiry: now.Add(year)}
+						ledger[key(op.G, m)] = &c04Grant{Unlimited: true, Expiry: now.Add(year), Allow: allow}
 					case amt.Sign() == 0:
 						delete(ledger, key(op.G, m))
 					default:
-						ledger[key(op.G, m)] = &c04Grant{Limit: new(big.Int).Set(amt), Expiry: now.Add(year)}
+						ledger[key(op.G, m)] = &c04Grant{Limit: new(big.Int).Set(amt), Expiry: now.Add(year), Allow: allow}
 					}
 				}
 			}
@@ -321,6 +365,17 @@ func runC04B(st *ev.Stats, c C04Case) string {
 			}
 			// install a one-op program at the grantee frame and call it
 			val, val2 := vals[op.Val%len(vals)].OperatorAddress, vals[(op.Val+1)%len(vals)].OperatorAddress
+			named := val // the validator the grant has to name
+			if op.Val == 2 && newVal != "" {
+				switch op.M {
+				case 0:
+					val, named = newVal, newVal
+				case 2:
+					val, val2, named = vals[0].OperatorAddress, newVal, newVal
+				}
+			} else if op.M == 2 {
+				named = val2
+			}
 			var data []byte
 			switch op.M {
 			case 0:
@@ -351,6 +406,10 @@ func runC04B(st *ev.Stats, c C04Case) string {
 				continue
 			}
 			covered := g != nil && (g.Unlimited || amt.Cmp(g.Limit) <= 0)
+			outsideAllowList := covered && !g.Allow[named]
+			if outsideAllowList {
+				covered = false
+			}
 			delBefore := pxAccount(n, pxSigner.Addr)
 			code, vmErr, log := ethCall(grantee, nil)
 			flag := int(n.Storage(grantee, evmasm.ResultSlot(op.G, 0)).Big().Int64()) - 1
@@ -358,9 +417,20 @@ func runC04B(st *ev.Stats, c C04Case) string {
 			changed := delBefore.Dels != delAfter.Dels || delBefore.Ubds != delAfter.Ubds || delBefore.Reds != delAfter.Reds
 			desc := fmt.Sprintf("op %d spend %s %s ISLM-milli via frame%d: tx code %d vm %q flag %d; ledger grant %+v (now %s): %s", i, c04Methods[op.M], op.Amt, op.G, code, vmErr, flag, g, now.Format(time.RFC3339), trunc(log))
 			if !covered {
+				if outsideAllowList && flag != 1 && changed {
+					// refused, but only after the stake had been moved (the grant is consulted after the staking message
+					// ran, and the failing call's Cosmos-side writes stay): listed finding
+					if msg := fail("late-accept-failure:staking."+c04Methods[op.M], desc+"; the grant does not name validator "+named); msg != "" {
+						return msg
+					}
+					st.Class("known:late-accept-failure:staking." + c04Methods[op.M])
+					continue
+				}
 				if flag == 1 || changed {
 					k := "spend-without-grant:" + c04Methods[op.M]
-					if g != nil {
+					if outsideAllowList {
+						k = "spend-outside-allow-list:" + c04Methods[op.M]
+					} else if g != nil {
 						k = "overspend:" + c04Methods[op.M]
 					}
 					return fail(k, desc)
